@@ -406,6 +406,159 @@ fn near_binomial_space(ctx: &Ctx, nmax: usize) {
     );
 }
 
+/// clustered roots (the property names them): products lead * prod (x - r_j) with the r_j a cluster r + {-w, 0, w} (degree 3),
+/// r + {-w, w} or a triple / double root expanded in f64 (so the coefficients are inexact), plus a far root for degree 4..5.
+/// The coefficients are what they are after rounding; the oracle is the backward error with respect to THEM.
+fn clustered_space(ctx: &Ctx) {
+    let centres = [2.66, -2.36, 0.62, -0.62, 1.0, -3.0, 0.1, 1e-2, 30.0];
+    let widths = [0.0, 1e-4, 1e-3, 1e-2, 2e-2, 0.1];
+    let leads = [1.0, 3.0, 5.0, -0.25];
+    let shapes = 6usize; // 0: (r-w, r, r+w)  1: (r, r, r+w)  2: (r-w, r+w)  3: (r-w, r, r+w, 10 r + 7)  4: (r-w, r, r+w, -1, 4)  5: (r-w, r, r+w) times (x^2+1)
+    let total = (centres.len() * widths.len() * leads.len() * shapes * 2) as u64;
+    ctx.lattice(
+        "clustered roots: 9 centres x widths {0,1e-4,1e-3,1e-2,2e-2,0.1} x 4 leads x 6 cluster shapes (degree 2..5) x refine, through both entry points",
+        total,
+        |idx| format!("{}", idx),
+        |idx, acc| {
+            let refine = idx % 2 == 1;
+            let mut r0 = idx / 2;
+            let sh = (r0 % shapes as u64) as usize;
+            r0 /= shapes as u64;
+            let lead = leads[(r0 % 4) as usize];
+            r0 /= 4;
+            let w = widths[(r0 % widths.len() as u64) as usize];
+            r0 /= widths.len() as u64;
+            let r = centres[r0 as usize];
+            let mut roots: Vec<f64> = match sh {
+                0 | 3 | 4 | 5 => vec![r - w, r, r + w],
+                1 => vec![r, r, r + w],
+                _ => vec![r - w, r + w],
+            };
+            if sh == 3 {
+                roots.push(10.0 * r + 7.0);
+            }
+            if sh == 4 {
+                roots.push(-1.0);
+                roots.push(4.0);
+            }
+            let mut c = vec![lead];
+            for &z in &roots {
+                let mut n = vec![0.0; c.len() + 1];
+                for k in 0..c.len() {
+                    n[k + 1] += c[k];
+                    n[k] -= c[k] * z;
+                }
+                c = n;
+            }
+            if sh == 5 {
+                let mut n = vec![0.0; c.len() + 2];
+                for k in 0..c.len() {
+                    n[k + 2] += c[k];
+                    n[k] += c[k];
+                }
+                c = n;
+            }
+            let cc: Vec<C> = c.iter().map(|x| (*x, 0.0)).collect();
+            acc.nontriv("clustered roots");
+            if w == 0.0 {
+                acc.nontriv("multiple root with inexact coefficients");
+            }
+            let key = || format!("clustered coeffs={:?} (centre {} width {} shape#{}) refine={}", c, r, w, sh, refine);
+            let mut local = Acc::new("t");
+            let res = catch(|| -> Result<(), String> {
+                let g = run_cmplx(&cc, refine);
+                judge_roots(&cc, &g, refine, false, &mut local, "clustered")?;
+                let gr: Vec<C> = Polynomial::<f64>::new(c.clone()).roots(refine).vec.iter().map(|z| (z.real, z.imag)).collect();
+                judge_roots(&cc, &gr, refine, false, &mut local, "clustered (f64 entry)")
+            });
+            acc.merge_worst(local);
+            match res {
+                Ok(Ok(())) => {}
+                Ok(Err(e)) => acc.fail(idx, key(), e),
+                Err(p) => acc.fail(idx, key(), format!("unexpected panic: {}", p)),
+            }
+        },
+    );
+}
+
+/// polynomials whose roots are all small (x^n + small lower-order terms): the root disc has radius < 1, so a fallback step of
+/// modulus >= 1 leaves it again
+fn small_root_space(ctx: &Ctx) {
+    let eps = [8e-6, 5e-6, 1e-6, 6e-4, 1e-2, 1e-1];
+    let mut cases = vec![];
+    for n in 4..=12usize {
+        for pat in 0..6usize {
+            for ie in 0..eps.len() {
+                for lead in 0..2usize {
+                    cases.push((n, pat, ie, lead));
+                }
+            }
+        }
+    }
+    ctx.lattice(
+        "small roots: x^n + small lower-order terms (6 patterns x 6 sizes 1e-6..1e-1) for n = 4..12, real and imaginary variants x refine",
+        cases.len() as u64 * 2,
+        |idx| format!("{:?} refine={}", cases[(idx / 2) as usize], idx % 2 == 1),
+        |idx, acc| {
+            let (n, pat, ie, lead) = cases[(idx / 2) as usize];
+            let refine = idx % 2 == 1;
+            let e = eps[ie];
+            let unit: C = if lead == 0 { (1.0, 0.0) } else { (0.0, -1.0) };
+            let mul = |x: f64| -> C { (unit.0 * x, unit.1 * x) };
+            let mut c: Vec<C> = vec![(0.0, 0.0); n + 1];
+            c[n] = (1.0, 0.0);
+            match pat {
+                0 => {
+                    c[0] = mul(e);
+                    c[1] = mul(e);
+                }
+                1 => {
+                    c[0] = mul(e);
+                    c[1] = mul(e);
+                    c[2] = mul(e);
+                }
+                2 => {
+                    c[0] = mul(e);
+                    c[1] = mul(e);
+                    c[n / 2 + 1] = mul(75.0 * e);
+                }
+                3 => {
+                    c[0] = mul(-e);
+                    c[1] = mul(e * 0.5);
+                }
+                4 => {
+                    for k in 0..n {
+                        c[k] = mul(e * (1.0 + k as f64));
+                    }
+                }
+                _ => {
+                    c[0] = mul(e);
+                    c[n - 1] = mul(e);
+                }
+            }
+            acc.nontriv("all roots small");
+            let key = || format!("small-roots coeffs={:?} refine={}", c, refine);
+            let mut local = Acc::new("t");
+            let res = catch(|| -> Result<(), String> {
+                let g = run_cmplx(&c, refine);
+                judge_roots(&c, &g, refine, false, &mut local, "small-roots")?;
+                if lead == 0 {
+                    let cr: Vec<f64> = c.iter().map(|z| z.0).collect();
+                    let gr: Vec<C> = Polynomial::<f64>::new(cr).roots(refine).vec.iter().map(|z| (z.real, z.imag)).collect();
+                    judge_roots(&c, &gr, refine, false, &mut local, "small-roots (f64 entry)")?;
+                }
+                Ok(())
+            });
+            acc.merge_worst(local);
+            match res {
+                Ok(Ok(())) => {}
+                Ok(Err(e)) => acc.fail(idx, key(), e),
+                Err(p) => acc.fail(idx, key(), format!("unexpected panic: {}", p)),
+            }
+        },
+    );
+}
+
 /// wide-scale complex coefficient lattice: mixed scale (1e-3 .. 1e3) and purely imaginary coefficients
 fn wide_scale_space(ctx: &Ctx, deg: usize) {
     let letters: Vec<C> = vec![(1., 0.), (0., 1.), (1e3, 0.), (-1e3, 0.), (0., 1e3), (0., -1e3), (1e-3, 0.), (-1e-3, 0.), (0., 1e-3), (0., -1e-3)];
@@ -575,7 +728,7 @@ fn main() {
     ctx.threshold("backward_error_unrefined_with_root_1e3", BE_UNREFINED_LARGE);
     ctx.threshold("backward_error_unrefined_closed_form_degree_1_2", BE_QUADRATIC);
     ctx.threshold("backward_error_unrefined_cardano_degree_3", BE_CARDANO);
-    ctx.require(&["repeated root", "root at zero", "non-real root", "iterative path (degree >= 4)", "closed-form path (degree <= 3)", "vanishing inner coefficient", "conjugate pair", "matched against the true roots", "degree 8..12", "coefficients of mixed scale (ratio up to 1e6)", "coefficient written through IndexMut after a roots() call", "history state of degree >= 4", "nearly binomial polynomial"]);
+    ctx.require(&["repeated root", "root at zero", "non-real root", "iterative path (degree >= 4)", "closed-form path (degree <= 3)", "vanishing inner coefficient", "conjugate pair", "matched against the true roots", "degree 8..12", "coefficients of mixed scale (ratio up to 1e6)", "coefficient written through IndexMut after a roots() call", "history state of degree >= 4", "nearly binomial polynomial", "clustered roots", "multiple root with inexact coefficients", "all roots small"]);
     for k in 1..=ctx.pick(7, 11) {
         multiset_space(&ctx, k);
     }
@@ -586,6 +739,8 @@ fn main() {
     }
     high_degree_space(&ctx, ctx.pick(4, 7));
     near_binomial_space(&ctx, 12);
+    clustered_space(&ctx);
+    small_root_space(&ctx);
     for d in 2..=ctx.pick(5, 6) {
         wide_scale_space(&ctx, d);
     }
